@@ -11,7 +11,7 @@
   Notation: `hmapOf cm p` is the `hdpubkey_map` the summary works with (the caller's `cm`, or — when
   that is empty — the one built from the PSBT's global xpubs).
 
-  A  summary_fee, summary_totals, summary_partition, summary_outputs, summary_single_change
+  A  summary_fee, summary_totals, summary_partition, summary_outputs, summary_spend_counts_outputs, summary_single_change
   B  change_commits_by_hash, change_is_plain_multisig, change_keys_perm, change_one_key_per_cosigner,
      change_is_wallet_multisig (the three together, repaired configuration)
   C  describe_refuses_invalid_output / _input (lifting), tamper_* (one per catalogue item; the two shapes of
